@@ -19,6 +19,8 @@ def _ranges(obj):
 
 def d3_compatible_release_with_post_bound(sig):
     """`~=V` rendering of a range whose exclusive upper bound is a post-release (pinned by the repository's own test)."""
+    if (sig.get("obligation") or "").endswith("#C06.range.tilde.upper-has-no-post-release"):
+        return True          # the proof obligation that states exactly this finding class
     inp = sig.get("input") or {}
     text = inp.get("str") or ""
     if "~=" not in text:
